@@ -7,6 +7,25 @@ Import ListNotations.
 From NV Require Import Gen.S256Consts S256.S256.
 Local Open Scope N_scope.
 
+(* compact literal for a byte string: length and big-endian value, written as
+   one hexadecimal number (cheap for coqc to elaborate); decoded by walking
+   the bits of the number, 8 at a time from the low end *)
+Fixpoint pos_bytes_le (p : positive) (k : nat) (cur w : N) : list N :=
+  match p with
+  | xH => [cur + w]
+  | xO q => match k with
+            | 7%nat => cur :: pos_bytes_le q 0 0 1
+            | _ => pos_bytes_le q (S k) cur (2 * w)
+            end
+  | xI q => match k with
+            | 7%nat => (cur + w) :: pos_bytes_le q 0 0 1
+            | _ => pos_bytes_le q (S k) (cur + w) (2 * w)
+            end
+  end.
+Definition bs (n : nat) (x : N) : list N :=
+  let le := match x with N0 => [] | Npos p => pos_bytes_le p 0 0 1 end in
+  rev (le ++ repeat 0 (n - length le)).
+
 Fixpoint list_N_eqb (a b : list N) : bool :=
   match a, b with
   | [], [] => true
@@ -143,3 +162,9 @@ Definition pair_model_mismatches := mism_from pair_model_ok 0.
 Definition pair_ref_mismatches := mism_from pair_ref_ok 0.
 Definition dec_model_mismatches := mism_from dec_model_ok 0.
 Definition dec_ref_mismatches := mism_from dec_ref_ok 0.
+
+(* sanity of the literal decoder against the model's be_bytes *)
+Example bs_sanity : bs 5 0x00ff0110 = [0; 0; 255; 1; 16] /\ bs 0 0x0 = [] /\ bs 2 0x0 = [0; 0] /\
+  bs 33 0x01ffffffffffffffffffffffffffffffffffffffffffffffffffffffffffffff80
+  = be_bytes 33 0x01ffffffffffffffffffffffffffffffffffffffffffffffffffffffffffffff80.
+Proof. vm_compute. repeat split. Qed.
